@@ -22,9 +22,10 @@ CONSTANTS Types,      \* message types with a local definition
 ACKT == 2
 ALLT == 2147483647
 (* frame classes *)
-Classes == {"good", "zerolen", "unknown", "wrongsize", "wrongsize0", "wrongver", "wrongver0", "zerover", "ack"}
+Classes == {"good", "zerolen", "unknown", "wrongsize", "wrongsize0", "wrongver", "wrongver0", "wrongboth", "zerover", "ack"}
 (* wrongsize0: a type with a non-empty local definition arriving with NO payload; wrongver0: a signal (empty definition)
-   carrying a non-zero version hash different from the local one *)
+   carrying a non-zero version hash different from the local one; wrongboth: payload size AND version hash differ from the
+   local definition (what a real change of the sender's definition produces) - refused with or without the sync check *)
 TimeoutClasses == {"zero", "pos", "tiny", "block"}   \* tiny: a positive timeout shorter than one read
 
 VARIABLES q,          \* unread frames: records [cls, t, id]
@@ -40,7 +41,7 @@ Subscribed(S, f) == S.suball \/ f.t \in S.csub
 (* does the frame decode, and if not, which documented error *)
 Decode(f, sync) ==
   CASE f.cls = "unknown" -> "UnknownMessageType"
-    [] f.cls \in {"wrongsize", "wrongsize0"} -> "InvalidMessageDefinition"
+    [] f.cls \in {"wrongsize", "wrongsize0", "wrongboth"} -> "InvalidMessageDefinition"
     [] f.cls \in {"wrongver", "wrongver0"} /\ sync -> "InvalidMessageDefinition"
     [] OTHER -> "ok"
 
